@@ -64,6 +64,10 @@ impl CsrSegment {
         }
 
         let idx = (dst - self.min_dst) as usize;
+        // A segment without edges has no reverse index at all (min_dst == max_dst == 0).
+        if idx + 1 >= self.in_offsets.len() {
+            return Box::new(std::iter::empty());
+        }
         let start = self.in_offsets[idx] as usize;
         let end = self.in_offsets[idx + 1] as usize;
 
